@@ -10,6 +10,7 @@ from sx.harness import Case, run_property, shell_spec
 from . import common as cm
 from .c09 import NIDX
 from .c10 import _cart_overlap
+from . import c07 as _c07
 
 ENCODED = [
     "gbasis.integrals._moment_int:_compute_multipole_moment_integrals_intermediate",
@@ -322,8 +323,20 @@ class RepClosed(Case):
         return {"WM": np.dot(D, W)}
 
 
+class OriginShift(_c07.Shift):
+    """moments shift binomially when only the origin moves and the basis stays where it is (the last sentence of the
+    property): M_e(C + d) = sum_k binom(e,k) (-d)^(e-k) M_k(C) with symbolic C and d; both calls are made on the same
+    shells in one interpreter, one after the other (seed C12e: a table memoised without the origin in its key)"""
+
+    prop = "C12"
+
+
 def cases(tier, seed=0):
     out = []
+    out.append(OriginShift(ls=[1, 0], types="cc", Ks=[1, 1], Ms=[1, 1], order=[2, 1, 0]))
+    out.append(OriginShift(ls=[0, 1], types="cs", Ks=[1, 1], Ms=[1, 2], order=[1, 0, 1]))
+    if tier == "thorough":
+        out.append(OriginShift(ls=[2, 1], types="sc", Ks=[1, 1], Ms=[1, 1], order=[0, 2, 1]))
     mods = ["overlap", "kinetic", "dipole", "momentum", "angmom", "point_charge", "eval", "grad"]
     two = dict(ls=[1, 2], types="cc", Ks=[1, 1], Ms=[1, 1])
     mix = dict(ls=[2, 1], types="sc", Ks=[1, 1], Ms=[1, 2])
